@@ -156,6 +156,21 @@ def run(prog, E=None, rule="R-ALPHABET", floor=3):
                     s_ = _source(f, e[1][3])
                     if s_ and s_ in names.get(f.key, ()):
                         stores.append((b["id"], i, e, F, s_))
+        # the same copy written as a block copy: memcpy (X->cstat, src, n)
+        for b, i, c in f.calls():
+            if (callee(c) or "") in ("memcpy", "memmove") and len(c[3]) >= 2:
+                pd = apath(c[3][0])
+                fl = fields_of(pd[2])
+                F = None
+                for F_ in FIELDS:
+                    if fl and fl[-1].endswith(F_):
+                        F = F_
+                ps = apath(c[3][1])
+                src = ps[1] if (isinstance(ps[0], str) and ps[0].startswith("p")) else None
+                if src is None and ps[0] == "l":
+                    src = _source(f, ["i", strip(c[3][1]), ["n", 0, ""]])
+                if F and src and src in names.get(f.key, ()):
+                    stores.append((b["id"], i, ["C", ["a", "=", c[3][0], c[3][1]], c[4]], F, src))
         if not stores:
             continue
         dom, succ = dominators(prog, f)
